@@ -1734,6 +1734,18 @@ def _max(*a, **k):
     return term('max', *sorted((fz(v) for v in vals), key=repr))
 
 
+def _tree_all(t, is_leaf=None):
+    """jax.tree.all: all() over the leaves (None is not a leaf: an entry mapped to None does not count)"""
+    ls = pytree.tree_leaves(t, is_leaf=is_leaf) if is_leaf is not None else pytree.tree_leaves(t)
+    out = True
+    for l in ls:
+        if isinstance(l, (bool, int)):
+            out = out and bool(l)
+        else:
+            raise Top(f"truth value of the leaf {str(l)[:60]}")
+    return out
+
+
 def _clip(x, *bounds, **k):
     """clip(x, lo, hi): an opaque elementwise function of x unless both bounds are absent (a value that was x and is now
     clip(x, ...) is a different value: equal to x only where x lies between the bounds)"""
@@ -1875,7 +1887,9 @@ def make_world_externals(world_ref):
                    tree_flatten=pytree.tree_flatten, tree_unflatten=pytree.tree_unflatten)
     tree = NS("jax.tree", map=_tree_map, leaves=pytree.tree_leaves, reduce=pytree.tree_reduce,
               structure=pytree.tree_structure, transpose=pytree.tree_transpose,
-              flatten=pytree.tree_flatten, unflatten=pytree.tree_unflatten)
+              flatten=pytree.tree_flatten, unflatten=pytree.tree_unflatten,
+              all=(lambda t, **k: _tree_all(t, **k)))
+    tree_util.tree_all = tree.all
     lax = NS("jax.lax", cond=lax_cond, scan=alg.lax_scan, fori_loop=lax_fori_loop, while_loop=lax_while_loop,
              dynamic_slice=_dynamic_slice, dynamic_slice_in_dim=_dynamic_slice_in_dim, slice_in_dim=_slice_in_dim, slice=_lax_slice,
              dynamic_update_slice_in_dim=_dynamic_update_slice_in_dim, dynamic_update_slice=_dynamic_update_slice, select=_where,
